@@ -395,7 +395,7 @@ def bundle(cx, what, behaviour_line, trace_lines, tlc_out, extra=None, play_cmd=
 
 
 def judge(cx, behaviours, trace, rejected, crash, trace_module, play_cmd="play", play_extra=None, trace_cfg=None,
-          known_match=None):
+          known_match=None, seed_base=0):
     """Turn rejections/crashes into reproduced violations."""
     beh_lines = read_lines(behaviours)
     if crash and os.path.exists(trace) and os.path.exists(trace + ".idx"):
@@ -410,7 +410,7 @@ def judge(cx, behaviours, trace, rejected, crash, trace_module, play_cmd="play",
                 if early:
                     log("[judge] the harness process died later, but executions recorded before that are rejected")
                     judge(cx, behaviours, trace, early, None, trace_module, play_cmd=play_cmd, play_extra=play_extra,
-                          trace_cfg=trace_cfg, known_match=known_match)
+                          trace_cfg=trace_cfg, known_match=known_match, seed_base=seed_base)
                     if cx.violations:
                         return
         except Machinery:
@@ -426,7 +426,7 @@ def judge(cx, behaviours, trace, rejected, crash, trace_module, play_cmd="play",
                 continue
             one = os.path.join(cx.scratch, "one-crash.ndjson")
             open(one, "w").write(beh_lines[i] + "\n")
-            t2, c2 = play(cx, one, "recrash", cmd=play_cmd, extra=(play_extra or []) + ["-seedindex", str(i)])
+            t2, c2 = play(cx, one, "recrash", cmd=play_cmd, extra=(play_extra or []) + ["-seedindex", str(seed_base + i)])
             if c2:
                 break
             # the process survives this behaviour alone (the death may have needed the accumulated load, e.g.
@@ -436,7 +436,7 @@ def judge(cx, behaviours, trace, rejected, crash, trace_module, play_cmd="play",
             if not ok:
                 what = describe_rejection(tout) + " (the harness process died when this ran after the preceding behaviours)"
                 d = bundle(cx, what, beh_lines[i], tl, tout, play_cmd=play_cmd, trace_module=trace_module,
-                           trace_cfg=trace_cfg, extra={"seedindex": i})
+                           trace_cfg=trace_cfg, extra={"seedindex": seed_base + i})
                 cx.violations.append((what, d))
                 return
         if not c2:
@@ -446,17 +446,17 @@ def judge(cx, behaviours, trace, rejected, crash, trace_module, play_cmd="play",
             win = os.path.join(cx.scratch, "win-crash.ndjson")
             open(win, "w").write("\n".join(beh_lines[start:i0 + 1]) + "\n")
             for attempt in range(2):
-                t3, c3 = play(cx, win, "recrash-win", cmd=play_cmd, extra=(play_extra or []) + ["-seedindex", str(start)])
+                t3, c3 = play(cx, win, "recrash-win", cmd=play_cmd, extra=(play_extra or []) + ["-seedindex", str(seed_base + start)])
                 if c3:
                     what = "server process crashed after a sequence of executions: " + first_panic_line(c3["output"])
                     d = bundle(cx, what, "\n".join(beh_lines[start:i0 + 1]), [], c3["output"], play_cmd=play_cmd,
-                               trace_module=trace_module, trace_cfg=trace_cfg, extra={"seedindex": start})
+                               trace_module=trace_module, trace_cfg=trace_cfg, extra={"seedindex": seed_base + start})
                     cx.violations.append((what, d))
                     return
             raise Machinery("harness crash near behaviour %d did not reproduce:\n%s" % (i0, crash["output"]))
         what = "server process crashed: " + first_panic_line(c2["output"])
         d = bundle(cx, what, beh_lines[i], [], c2["output"], play_cmd=play_cmd, trace_module=trace_module,
-                   trace_cfg=trace_cfg, extra={"seedindex": i})
+                   trace_cfg=trace_cfg, extra={"seedindex": seed_base + i})
         cx.violations.append((what, d))
         return
     unreproduced = []
@@ -469,10 +469,10 @@ def judge(cx, behaviours, trace, rejected, crash, trace_module, play_cmd="play",
         # reproduce: replay the same behaviour with the same seed index (several attempts: what the
         # behaviour exposes may depend on the goroutine scheduler)
         ok, tout, tl, c2 = True, "", [], None
-        sidx = rj["beh"]
+        sidx = seed_base + rj["beh"]
         for attempt in range(8):
             t2, c2 = play(cx, one, "re-%d" % rj["beh"], cmd=play_cmd,
-                          extra=(play_extra or []) + ["-seedindex", str(rj["beh"])])
+                          extra=(play_extra or []) + ["-seedindex", str(seed_base + rj["beh"])])
             if c2:
                 break
             tl = read_lines(t2)
@@ -492,7 +492,7 @@ def judge(cx, behaviours, trace, rejected, crash, trace_module, play_cmd="play",
             open(win, "w").write("\n".join(beh_lines[start:rj["beh"] + 1]) + "\n")
             for attempt in range(8):
                 t3, c3 = play(cx, win, "rewin-%d" % rj["beh"], cmd=play_cmd,
-                              extra=(play_extra or []) + ["-seedindex", str(start)])
+                              extra=(play_extra or []) + ["-seedindex", str(seed_base + start)])
                 if c3:
                     break
                 rej3 = validate(cx, t3, trace_module, trace_cfg)
@@ -503,7 +503,7 @@ def judge(cx, behaviours, trace, rejected, crash, trace_module, play_cmd="play",
                     tl = w3[r0["first"] - 1:r0["last"]]
                     tout = r0["tlc"]
                     bl = "\n".join(beh_lines[start:start + r0["beh"] + 1])
-                    sidx = start
+                    sidx = seed_base + start
                     break
         if ok:
             # keep what was rejected, for diagnosis
